@@ -184,7 +184,7 @@ type nestingWriter struct {
 
 func (n *nestingWriter) Write(b []byte) (int, error) {
 	n.calls++
-	if n.calls <= 64 {
+	if n.calls <= 8 || n.calls%16 == 0 {
 		rtx.WriteTable(n.other)
 	}
 	return n.buf.Write(b)
